@@ -339,7 +339,7 @@ func coqEnv(assets []envAsset) string {
 // loadEnv reads the bundled assets the model knows about, independently of livesim2's loader.
 func loadEnv() ([]envAsset, error) {
 	var out []envAsset
-	for _, name := range []string{"testpic_2s", "testpic_8s"} {
+	for _, name := range []string{"testpic_2s", "testpic_8s", "testpic_alt_seg_dur_stl"} {
 		dir := filepath.Join(lib.TestVodRoot, name)
 		a := envAsset{Path: name}
 		for _, id := range []string{"A48", "V300"} {
@@ -844,6 +844,71 @@ func gen(c *lib.Ctx, rng *rand.Rand) []c08case {
 			}
 		}
 	}
+	// $Time$ values that are and are not segment starts, systematically: multiples of every segment
+	// duration of the representation, of the first and of the mean duration, half durations, frame
+	// multiples, each over more than two loops; video, audio and generated subtitles; also on the asset
+	// with varying segment durations. The expectation comes from the harness's own segment table.
+	for _, an := range []string{"testpic_alt_seg_dur_stl", "testpic_2s", "testpic_8s"} {
+		vr, _, err := lib.LoadVodRep(filepath.Join(lib.TestVodRoot, an, "V300"), "V300")
+		if err != nil || len(vr.Segs) == 0 {
+			continue
+		}
+		loop := vr.Duration()
+		starts := map[int64]bool{}
+		durs := map[int64]bool{}
+		for _, sg := range vr.Segs {
+			starts[sg.Start-vr.Segs[0].Start] = true
+			durs[sg.End-sg.Start] = true
+		}
+		grid := map[int64]bool{}
+		steps := []int64{loop / int64(len(vr.Segs)), vr.Segs[0].End - vr.Segs[0].Start, 3000, 1024 * vr.Timescale / 48000}
+		for d := range durs {
+			steps = append(steps, d, d/2)
+		}
+		for _, st := range steps {
+			if st <= 0 {
+				continue
+			}
+			fine := st*8 < vr.Segs[0].End-vr.Segs[0].Start && !c.Thorough() // frame-sized steps: the first ones and those around the loop ends
+			for t := int64(0); t <= 2*loop+st; t += st {
+				k := t / st
+				if fine && k > 6 && (t%loop) > 2*st && loop-(t%loop) > 2*st {
+					continue
+				}
+				grid[t] = true
+				if c.Thorough() {
+					grid[t+1] = true
+				}
+			}
+		}
+		var ts []int64
+		for t := range grid {
+			ts = append(ts, t)
+		}
+		sort.Slice(ts, func(i, j int) bool { return ts[i] < ts[j] })
+		for i, t := range ts {
+			if !c.Thorough() && an != "testpic_alt_seg_dur_stl" && i%3 != 0 {
+				continue
+			}
+			isStart := starts[t%loop]
+			exp, why := "404", "time is no segment start"
+			if isStart {
+				exp, why = "", ""
+			}
+			now := strconv.FormatInt(t*1000/vr.Timescale+20000, 10)
+			add(liveCase("time-grid", fmt.Sprintf("/livesim2/segtimeline_1/%s/V300/%d.m4s", an, t), now, exp, why))
+			// audio: the time scaled to 48 kHz and floored to a frame; only "no crash" is asserted
+			at := t * 48000 / vr.Timescale / 1024 * 1024
+			add(liveCase("time-grid", fmt.Sprintf("/livesim2/segtimeline_1/%s/A48/%d.m4s", an, at), now, "", ""))
+			// generated subtitles count in milliseconds
+			if t*1000%vr.Timescale == 0 {
+				add(liveCase("time-grid", fmt.Sprintf("/livesim2/segtimeline_1/timesubsstpp_en/%s/timestpp-en/%d.m4s", an, t*1000/vr.Timescale), now, exp, why))
+				if i%2 == 0 {
+					add(liveCase("time-grid", fmt.Sprintf("/livesim2/segtimeline_1/timesubswvtt_en/%s/timewvtt-en/%d.m4s", an, t*1000/vr.Timescale), now, exp, why))
+				}
+			}
+		}
+	}
 	// numbers around the live edge and far away, each representation
 	for _, rep := range []string{"V300", "A48"} {
 		for _, nr := range []int{0, 1, 13, 14, 15, 20, 44, 45, 48, 49, 50, 51, 60, 1000, 4294967295} {
@@ -919,6 +984,37 @@ func gen(c *lib.Ctx, rng *rand.Rand) []c08case {
 				add(c08case{Group: "api:fields", Req: c08req{Kind: "router", Method: "POST", URL: "/api/cmaf-ingests", Body: []byte("{" + strings.Join(kv, ",") + "}"),
 					Hdr: map[string]string{"Content-Type": "application/json"}}})
 			}
+		}
+	}
+	// the ingest API is a second entry point into the configuration parser and LiveMPD: its livesimURL
+	// with every configuration family the /livesim2 generator knows
+	{
+		val := map[string]string{"statuscode": "[{cycle:8,rsq:1,code:404}]", "traffic": "u10", "utc": "ntp", "timesubsstpp": "en", "timesubswvtt": "en",
+			"drm": "foo", "eccp": "cenc", "annexI": "a=b", "ato": "1", "chunkdur": "1", "timeoffset": "1", "periods": "60", "snr": "7", "scte35": "2", "tsbd": "30", "mup": "2"}
+		var cfgs []string
+		for _, k := range keys {
+			v := val[k]
+			if v == "" {
+				v = "1"
+			}
+			cfgs = append(cfgs, k+"_"+v, k+"_x")
+			if c.Thorough() {
+				cfgs = append(cfgs, k+"_0", k+"_-1", k+"_", k+"_9223372036854775807")
+			}
+		}
+		for i, sp := range special {
+			if c.Thorough() || i%3 == 0 {
+				cfgs = append(cfgs, sp.parts)
+			}
+		}
+		for i, cf := range cfgs {
+			tail := "testpic_2s/Manifest.mpd"
+			if i%7 == 3 {
+				tail = "testpic_8s/Manifest.mpd"
+			}
+			body, _ := json.Marshal(map[string]any{"destRoot": "http://127.0.0.1:9", "destName": "d", "livesimURL": "/livesim2/" + cf + "/" + tail, "testNowMS": 7230000, "duration": 2})
+			add(c08case{Group: "api:livesimurl-config", Expect: "deliberate", Why: "ingest API with configuration " + cf,
+				Req: c08req{Kind: "router", Method: "POST", URL: "/api/cmaf-ingests", Body: body, Hdr: map[string]string{"Content-Type": "application/json"}}})
 		}
 	}
 	// patch
